@@ -642,7 +642,7 @@ def multiCommentLoop : Nat → LexSt → List Char → LexSt × List Char × Boo
       | (s1, none) => (s1, v, true)
       | (s1, some ch) =>
         let v1 := v ++ ch
-        if endsWithStarSlash v1 then (s1, v1, false) else multiCommentLoop fuel s1 v1
+        if endsWithStarSlash v1 && decide (v1.length ≥ 4) then (s1, v1, false) else multiCommentLoop fuel s1 v1
 
 def parseMultiComment : SubLex := fun s =>
   if rawPeek s.rest 0 2 != some ['/', '*'] then none else
